@@ -176,42 +176,45 @@ func (d Duration) String() string {
 		return "0ms"
 	}
 
+	// Work on the signed value and flip the sign of each (small) component instead of negating the whole value: the
+	// minimum duration has no positive counterpart.
 	remaining := d.value
+	sign := int64(1)
 	if d.value < 0 {
-		remaining = -d.value
+		sign = -1
 		res.WriteByte('-')
 	}
 
-	days := remaining / consts.MillisPerDay
+	days := sign * (remaining / consts.MillisPerDay)
 	if days > 0 {
 		res.WriteString(strconv.FormatInt(days, 10))
 		res.WriteByte('d')
 	}
 	remaining %= consts.MillisPerDay
 
-	hours := remaining / consts.MillisPerHour
+	hours := sign * (remaining / consts.MillisPerHour)
 	if hours > 0 {
 		res.WriteString(strconv.FormatInt(hours, 10))
 		res.WriteByte('h')
 	}
 	remaining %= consts.MillisPerHour
 
-	minutes := remaining / consts.MillisPerMinute
+	minutes := sign * (remaining / consts.MillisPerMinute)
 	if minutes > 0 {
 		res.WriteString(strconv.FormatInt(minutes, 10))
 		res.WriteByte('m')
 	}
 	remaining %= consts.MillisPerMinute
 
-	seconds := remaining / consts.MillisPerSecond
+	seconds := sign * (remaining / consts.MillisPerSecond)
 	if seconds > 0 {
 		res.WriteString(strconv.FormatInt(seconds, 10))
 		res.WriteByte('s')
 	}
 	remaining %= consts.MillisPerSecond
 
-	if remaining > 0 {
-		res.WriteString(strconv.FormatInt(remaining, 10))
+	if millis := sign * remaining; millis > 0 {
+		res.WriteString(strconv.FormatInt(millis, 10))
 		res.WriteString("ms")
 	}
 
